@@ -57,8 +57,10 @@ class St:
     nsym: int = 0
 
     def clone(self) -> "St":
-        return St(self.sigma, self.w, self.f_all, self.extra, dict(self.binds), self.decisions, self.unmodelled,
-                  self.repaired_sign, self.absorbed, self.in_all, self.nsym)
+        c = St(self.sigma, self.w, self.f_all, self.extra, dict(self.binds), self.decisions, self.unmodelled,
+               self.repaired_sign, self.absorbed, self.in_all, self.nsym)
+        c.zero_tau = getattr(self, "zero_tau", ())
+        return c
 
     def total(self) -> sp.Expr:
         return self.w * self.f_all ** N_ * self.extra
@@ -464,14 +466,19 @@ class Interp:
                 f = st.clone()
                 out += self.run_block(s.orelse, [f], returns)
                 return out
+            # norm > 0: the true side keeps the component; on the false side the column is zero (tau = 0): the component is zero
+            # whatever the scales, but the weight must end as zero too (it is multiplied by the norm)
+            if isinstance(s.test, ast.Compare) and isinstance(s.test.left, ast.Name) and isinstance(st.binds.get(s.test.left.id), sp.Symbol) \
+                    and str(st.binds[s.test.left.id]).startswith("tau"):
+                z = st.clone()
+                z.zero_tau = getattr(st, "zero_tau", ()) + (st.binds[s.test.left.id],)
+                z.decisions += ("zero column",)
+                out = self.run_block(s.body, [st], returns)
+                return out + self.run_block(s.orelse, [z], returns)
             if r is True:
                 return self.run_block(s.body, [st], returns)
             if r is False:
                 return self.run_block(s.orelse, [st], returns)
-            # norm > 0: only the true side matters (zero column: the component is zero whatever the scales)
-            if isinstance(s.test, ast.Compare) and isinstance(s.test.left, ast.Name) and isinstance(st.binds.get(s.test.left.id), sp.Symbol) \
-                    and str(st.binds[s.test.left.id]).startswith("tau"):
-                return self.run_block(s.body, [st], returns)
             t, f = st.clone(), st.clone()
             t.decisions += (txt,)
             f.decisions += (f"not ({txt})",)
@@ -501,6 +508,15 @@ class Interp:
     def call(self, name: str, call: ast.Call, st: St) -> List[St]:
         """Inline an in-place method of the same class on the current state (one level)."""
         fn = self.methods[name]
+        self.depth = getattr(self, "depth", 0) + 1
+        try:
+            if self.depth > 3:
+                raise Unmodelled(f"recursive inlining of {name}")
+            return self._call(name, fn, call, st)
+        finally:
+            self.depth -= 1
+
+    def _call(self, name: str, fn, call: ast.Call, st: St) -> List[St]:
         params = [a.arg for a in fn.args.args][1:]
         sub = st.clone()
         saved = dict(sub.binds)
